@@ -137,6 +137,10 @@ func ExecPlan(t *testing.T, h Harness, p *Plan, keepTrace bool) (*Result, *Run) 
 	run.KeepTrace = keepTrace
 	old := debug.SetGCPercent(-1)
 	ResetRuntime(p.RTSeed)
+	// knob "lock_yield": per-mille probability that a lock acquisition inside
+	// the bubble is a scheduling point (0 = the plain run-until-blocked order)
+	SetLockYield(int(p.Knob("lock_yield", 0)))
+	defer SetLockYield(0)
 	w0 := time.Now() // outside the bubble: real time
 	errText := ""
 	func() {
